@@ -1,0 +1,27 @@
+//go:build verif
+
+// Contracts for the deductive checks under /verif (comment-only; no code).
+// The generated getters are straight-line; they are expanded from source at call sites.
+
+package pb
+
+//@ func (*Data).GetType
+//@   inline
+//@ func (*Data).GetData
+//@   inline
+//@ func (*Data).GetFilesize
+//@   inline
+//@ func (*Data).GetBlocksizes
+//@   inline
+//@ func (*Data).GetHashType
+//@   inline
+//@ func (*Data).GetFanout
+//@   inline
+//@ func (*Data).GetMode
+//@   inline
+//@ func (*Data).GetMtime
+//@   inline
+//@ func (*IPFSTimestamp).GetSeconds
+//@   inline
+//@ func (*IPFSTimestamp).GetNanos
+//@   inline
